@@ -319,3 +319,7 @@ func TestC12Fill(t *testing.T) {
 		return v
 	})
 }
+
+func TestC12Outage(t *testing.T) {
+	h.Run(t, "C12", "outage", func(t *rapid.T) Hist { return genOutageHist(t, false, true) }, outageOf(judgeC12))
+}
